@@ -473,23 +473,65 @@ func BarrierBeforeAppend(c *core.Ctx, s *Sender, rule string, strict bool) {
 		}
 		return false
 	}
+	flushed := cfgq.Or(IsCallTo(info, s.SendFunc), s.IsRecv)
+	var tests []*cfg.Block // branches on the flush variable
+	for _, b := range s.G.CFG.Blocks {
+		if !b.Live || len(b.Succs) != 2 {
+			continue
+		}
+		hit := false
+		for si := range b.Succs {
+			for _, ft := range s.Fl.Facts(b, si) {
+				hit = hit || core.Mentions(info, ft.Expr, s.Fs)
+			}
+		}
+		if cond := cfgq.CondOf(b); hit || cond != nil && core.Mentions(info, cond, s.Fs) {
+			tests = append(tests, b)
+		}
+	}
+	isTestEdge := func(b *cfg.Block, i int) bool {
+		for _, t := range tests {
+			if t == b {
+				return true
+			}
+		}
+		return false
+	}
 	for i, a := range s.Appends {
 		pt, ok := s.G.Find(a)
 		if !ok {
 			continue
 		}
 		tn := pt.Node()
-		w := s.G.Path(cfgq.Query{From: s.BarrierPt, After: true, Avoid: cfgq.Or(IsCallTo(info, s.SendFunc), s.IsRecv),
-			AvoidEdge: s.Fl.Edge(noFlush), Target: func(n ast.Node) bool { return n == tn }})
+		toAppend := func(n ast.Node) bool { return n == tn }
 		detail := "when barrierStatus reports a flush (SELECT/MULTI/EXEC), sendFunc() must run before the barrier command itself is cached: otherwise one batch spans a SELECT and its checkpoint is stored in only one of the databases its commands ran in"
 		key := fmt.Sprintf("flush-before-append#%d", i+1)
-		// a reassignment of the flush variable between the barrier call and the test would invalidate the edge facts
-		w2 := s.G.Path(cfgq.Query{From: s.BarrierPt, After: true, Avoid: cfgq.Or(IsCallTo(info, s.SendFunc), s.IsRecv), Target: fsWrite})
+		// definite: the flush status is tested unmodified, the flush edge is taken, and the append is reached without sendFunc()
+		var bad []string
+		for _, t := range tests {
+			cn := t.Nodes[len(t.Nodes)-1]
+			p1 := s.G.Path(cfgq.Query{From: s.BarrierPt, After: true, Avoid: cfgq.Or(flushed, fsWrite), Target: func(n ast.Node) bool { return n == cn }})
+			if p1 == nil {
+				continue
+			}
+			for si, succ := range t.Succs {
+				if s.Fl.Edge(noFlush)(t, si) {
+					continue
+				}
+				if p2 := s.G.Path(cfgq.Query{From: cfgq.Point{B: succ, I: 0}, Avoid: flushed, AvoidEdge: s.Fl.Edge(noFlush), Target: toAppend}); p2 != nil {
+					bad = append(append([]string{}, p1...), p2...)
+				}
+			}
+		}
+		if bad == nil { // or the append is reached without consulting the flush status at all
+			bad = s.G.Path(cfgq.Query{From: s.BarrierPt, After: true, Avoid: flushed, AvoidEdge: isTestEdge, Target: toAppend})
+		}
+		any := s.G.Path(cfgq.Query{From: s.BarrierPt, After: true, Avoid: flushed, AvoidEdge: s.Fl.Edge(noFlush), Target: toAppend})
 		switch {
-		case w == nil && w2 == nil:
+		case bad == nil && any == nil:
 			c.Okf(rule, key, a.Pos(), "the append is reachable from the barrier test only through sendFunc() or a no-flush edge")
-		case w != nil && w2 == nil && strict:
-			c.Check(rule, key, a.Pos(), false, detail, w...)
+		case bad != nil && strict:
+			c.Check(rule, key, a.Pos(), false, detail, bad...)
 		default:
 			c.Undecidedf(rule, key, a.Pos(), "%s (not a necessary condition of this property by itself, or the flush variable is rewritten before its test; decided under C04.R3)", detail)
 		}
